@@ -61,7 +61,9 @@ RULE_ADDED = (
               'Round 16: chains whose certifying certificates say CA=FALSE or carry no basic co'
               'nstraints (one chain in eight). '
               ' '
-              'Round 17: one chain in sixteen is 6..17 certificates deep. ')
+              'Round 17: one chain in sixteen is 6..17 certificates deep. '
+              ' '
+              'Round 19: links that expired 1..200 seconds before the validation. ')
 RULE = RULE + " " + RULE_ADDED.strip()
 ASSUMPTIONS = [
     "oracle: pv/oracle/certv2.py; X.509 parsing itself is shared (cryptography), signature "
@@ -266,7 +268,9 @@ def corrupt(rng, m, doc, kind):
         depth = len(m.certs)
         i = rng.randrange(depth)
         w = ["valid"] * depth
-        w[i] = rng.choice(["expired", "expired_recently"]) if kind == "expired-link" else \
+        g.SECONDS_AGO[0] = rng.choice([1, 2, 5, 20, 50, 200])
+        w[i] = rng.choice(["expired", "expired_recently", "expired_seconds_ago"]) \
+            if kind == "expired-link" else \
             rng.choice(["not_yet", "valid_soon"])
         m2 = g.build(rng, depth=depth, windows=w)
         d2 = g.to_doc(m2)
@@ -469,7 +473,11 @@ def compare(acc, doc, root_cert, tmpdir, label, case):
         top = [e["name"] for e in doc["elements"] if e["signed_by"] == "sgx_root"]
         want, soft = {"quote": (False, top[0] if top else None)}, set()
     else:
-        want, soft = o.verify(doc, root_cert, now=g.NOW + g.CLOCK_OFFSET)
+        # (the clock as the code under test reads it: the real one, shifted - after the
+        # validation just judged, so that a certificate that had expired stays expired)
+        import datetime as _dtm
+        want, soft = o.verify(doc, root_cert,
+                              now=_dtm.datetime.now(_dtm.timezone.utc) + g.CLOCK_OFFSET)
     gv = got.get("quote")
     wv = want["quote"]
     if gv is None:
